@@ -309,6 +309,21 @@ Proof.
 Qed.
 Print Assumptions C17_code_sites_are_the_model.
 
+(* which entries of a column ensemble's list are members, as regenerated from its _iter: exactly
+   those that are neither 'drop' nor without columns - the model's fitted members; and a fitted
+   ensemble iterates over estimators_ only *)
+Theorem C17_column_ensemble_members_are_the_source's :
+  (forall d e, gen_colens_yields true d e = negb d && negb e /\ gen_colens_yields false d e = true) /\
+  (forall e, gen_colens_yields true (entry_is_drop e) (entry_is_empty e) = entry_is_member e) /\
+  (forall spec, length (fitted_members spec) =
+     length (filter (fun e => gen_colens_yields true (entry_is_drop e) (entry_is_empty e)) spec)) /\
+  gen_colens_fitted_iterates_fitted_only = true.
+Proof.
+  split; [exact gen_colens_yields_spec|]. split; [exact gen_colens_yields_is_member|].
+  split; [exact fitted_members_are_the_entries_handed_out|exact gen_colens_fitted_iterates_fitted_only_holds].
+Qed.
+Print Assumptions C17_column_ensemble_members_are_the_source's.
+
 (* the repaired SupervisedTimeSeriesForest, as regenerated from the source: the row a tree
    contributes is its own row placed by label under the forest's classes_ - whatever classes its
    bootstrap bag contained - and the forest's row is the mean of these, i.e. the model's `tsf_proba`
